@@ -1,5 +1,7 @@
 mod alloc;
+mod c12;
 mod c14;
+mod c16;
 mod chan;
 mod driver;
 mod forkrun;
@@ -12,7 +14,7 @@ use driver::{PropDef, Tier};
 static GLOBAL: alloc::CountingAlloc = alloc::CountingAlloc;
 
 fn props() -> Vec<&'static PropDef> {
-    vec![&chan::C06, &chan::C07, &chan::C08, &reg::C01, &reg::C02, &reg::C03, &reg::C04, &reg::C18, &c14::C14]
+    vec![&chan::C06, &chan::C07, &chan::C08, &reg::C01, &reg::C02, &reg::C03, &reg::C04, &reg::C18, &c14::C14, &c12::C12, &c16::C16]
 }
 
 fn find(id: &str) -> &'static PropDef {
